@@ -705,6 +705,7 @@ ODD_LINES = [
     'X = 7 // 2 % 3', 'X = 1 << 4 >> 2', 'X = (((1)))', 'X = ()', 'X = 1 / 2', 'X = 1 // 0', 'X = 08', 'X = 0_1', 'X = 1_000',
     'X = 0x', 'X = 1__0', 'X = a b', 'X = x8', 'X = - - 1', 'X = + ~ 1', 'X = 1 - -1', 'X = 2**-1',
     'align 0', 'align -4', 'align 1', 'lw x8, %lo((x9)', 'sw x8 4(x9) 1', 'c.sw x8 4(', 'c.lw x8, 4((x9)', 'lw x8, %lo', 'sw x8, %hi(',
+    "X = '\\x'", "X = '\\u12'", "addi x1, x1, '\\N{x}'", "X = '\\7'", "X = '\\x4'",
     'lw x8, %lo(5)(x9)', 'dw %offset a b', 'dw %offset(a b)', 'dw %position(a', 'dw %position a', 'li t0, %lo(', 'jalr x1, 4(x2', 'jalr x1, 4(x2)',
 ]
 
